@@ -37,6 +37,10 @@ def main():
             r = sh(f"git -C {wt} apply {os.path.join(VERIF, 'seeded', mid, 'patch.diff')}")
             if r.returncode != 0:
                 return mid, prop, "PATCH-DOES-NOT-APPLY (code changed since it was written)", 0
+            cb = subprocess.run("go build ./... 2>&1 | tail -3", shell=True, cwd=wt, env=dict(os.environ, GOFLAGS="-mod=mod", GOPROXY="off"), capture_output=True, text=True)
+            sh(f"git -C {wt} checkout -q -- go.mod go.sum")
+            if cb.stdout.strip():
+                return mid, prop, "PATCH-NO-LONGER-COMPILES (code changed since it was written)", 0
             env = dict(os.environ, GROG_REPO=wt, VERIF_EVIDENCE_DIR=os.path.join(base, "ev", mid), VERIF_REPLAY_DIR=os.path.join(base, "rp", mid))
             t = time.time()
             c = subprocess.run(f"python3 tools/check.py {prop} --tier quick", shell=True, cwd=VERIF, env=env, capture_output=True, text=True)
@@ -63,12 +67,20 @@ def main():
         sh(f"git -C /repo worktree remove --force {wts.get()}")
     shutil.rmtree(base, ignore_errors=True)
     lines = ["# Seeded mutations: result of the quick check of the property each one breaks", "",
-             "| id | property | first run | final run |", "|---|---|---|---|"]
+             "Each mutation was written by an independent sub-agent that saw only the property text (and, from round b on, the list of earlier ideas) and its own",
+             "scratch worktree; every one was confirmed (existing tests unchanged, demo fails with it and passes without) before it was kept. `first run` = the check as",
+             "it was when the mutation was written; `final run` = `tools/seeded_all.py` on the final tree (patch applied in a scratch worktree, quick tier, seed 1).",
+             "PATCH-DOES-NOT-APPLY / PATCH-NO-LONGER-COMPILES: the mutated code was changed by a later `fix:` commit. MISSED in the final run: see the note (both are",
+             "equivalent mutants on the final tree).", "",
+             "| id | property | round | first run | final run | note |", "|---|---|---|---|---|---|"]
     for mid in sorted(os.listdir(os.path.join(VERIF, "seeded"))):
         mp = os.path.join(VERIF, "seeded", mid, "meta.json")
         if os.path.isfile(mp):
             m = json.load(open(mp))
-            lines.append(f"| {mid} | {m['property']} | {m.get('first_run', m.get('caught_by', ''))} | {m.get('final_run', '')} |")
+            rnd = m.get("round", "")
+            rnd = "d" if rnd.startswith("fourth") else "c" if rnd.startswith("third") else "b" if "second" in rnd or "generalis" in rnd else ("a" if not rnd else rnd[:12])
+            note = m.get("final_run_note", "") or m.get("strengthened", "")
+            lines.append(f"| {mid} | {m['property']} | {rnd} | {m.get('first_run', m.get('caught_by', ''))} | {m.get('final_run', '')} | {note} |")
     open(os.path.join(VERIF, "seeded", "RESULTS.md"), "w").write("\n".join(lines) + "\n")
 
 if __name__ == "__main__":
